@@ -148,7 +148,7 @@ def scen_ode(env, cfg):
     vd = env.real('vdneff', 1e-5, 1e-3)
     kL = env.real('kL', 0.1, 8)
     F = env.real('F', -20, 20)
-    user = (lambda z: 1 - z * z * env.const('0.5')) if apo == 'callable' else None
+    user = (lambda z: 1 + z * env.const('0.5')) if apo == 'callable' else None      # a smooth positive profile that exceeds 1 on part of the grating
     rec, saved = _patch(env)
     try:
         D.FBG(x, fc=fc, vdneff=vd, kL=kL, F=F, apodization=(user if apo == 'callable' else apo), print_params=False, filtfilt=False)
